@@ -225,6 +225,7 @@ Plan generate_plan(const std::string& prop, unsigned long long vseed, unsigned l
             int im = (int)p.mgrs.size() - 1;
             for (auto& o : p.ops) if ((o.kind == OP_NORMALIZE || o.kind == OP_MAKEOWNER || o.kind == OP_FREE || o.kind == OP_FREEQL) && r.chance(300)) o.mgr = im;
         }
+        if (r.chance(60)) { Op st; st.kind = OP_A_SELFTEST; st.mgr = r.range(0, hc.nmgrs - 1); p.ops.insert(p.ops.begin() + r.range(0, (int)p.ops.size()), st); }   // uriTestMemoryManager takes a manager too
         if (r.chance(120)) {   // a manager table that was accepted before loses a member in place for one call: it must be rejected now
             std::vector<int> elig;
             for (int i = 1; i < (int)p.ops.size(); i++) { int k = p.ops[(size_t)i].kind; if (k == OP_PARSE || k == OP_ADDBASE || k == OP_REMOVEBASE || k == OP_NORMALIZE || k == OP_MAKEOWNER || k == OP_DISSECT || k == OP_COMPOSE_MALLOC) elig.push_back(i); }
@@ -454,7 +455,8 @@ Plan generate_plan(const std::string& prop, unsigned long long vseed, unsigned l
     } else if (prop == "C15") {
         p.mgrs = {MK_COMPLETED}; p.mgr_mask = {0};
         if (r.chance(400)) { p.mgrs.push_back(MK_COMPLETED); p.mgr_mask.push_back(0); }   // two completed managers over different backends, alive together
-        static const std::vector<unsigned long long> sizes = {0, 1, 2, 7, 8, 9, 15, 16, 17, 63, 64, 100, 4096, 4097, 9000, 70000, ~0ull, ~0ull - 7, ~0ull - 8, ~0ull - 9, (~0ull >> 1) + 1, (~0ull >> 1), 1ull << 32, (1ull << 32) + 1, 3, 5};
+        static const std::vector<unsigned long long> sizes = {0, 1, 2, 7, 8, 9, 15, 16, 17, 63, 64, 100, 4096, 4097, 9000, 70000, ~0ull, ~0ull - 7, ~0ull - 8, ~0ull - 9, (~0ull >> 1) + 1, (~0ull >> 1), 1ull << 32, (1ull << 32) + 1, 3, 5,
+            0xAAAAAAAAAAAAAAABull, 0xAAAAAAAAAAAAAAAAull, 0xAAAAAAAAAAAAAAB0ull, 0x5555555555555556ull, 0xCCCCCCCCCCCCCCCDull, 0x8000000000000010ull, 0xFFFFFFFFFFFFF000ull, ~0ull / 3 + 1};   // sizes at which size + size/2, 2*size, 3*size, size + 4096 wrap
         int n = r.range(1, thorough ? 40 : 24);
         bool faults = r.chance(500);
         for (int i = 0; i < n; i++) {
